@@ -49,9 +49,65 @@ func queryRoots(c *Ctx) []*ssa.Function {
 }
 
 // allowedMemo: write -> reason.
+// ruleCacheField locates the storage's rule cache by what it is: the struct
+// field of package filterlist that maps storage indexes to rules.  It sits in
+// RuleStorage today; a type of its own holding the map and its mutex is the
+// same state.  mus are the mutex fields of the owning struct (of RuleStorage
+// if the owner has none).
+func ruleCacheField(p *Prog) (owner, field string, mus []string) {
+	owner, field = "RuleStorage", "cache"
+	pk := p.Pkgs[pkgPath("filterlist")]
+	if pk == nil {
+		return owner, field, []string{"cacheMu"}
+	}
+	musOf := func(st *types.Struct) []string {
+		var out []string
+		for i := 0; i < st.NumFields(); i++ {
+			t := typeStr(st.Field(i).Type())
+			if strings.HasSuffix(t, "sync.RWMutex") || strings.HasSuffix(t, "sync.Mutex") {
+				out = append(out, st.Field(i).Name())
+			}
+		}
+		return out
+	}
+	var found [][2]string
+	byName := map[string]*types.Struct{}
+	names := pk.Types.Scope().Names()
+	sort.Strings(names)
+	for _, n := range names {
+		tn, ok := pk.Types.Scope().Lookup(n).(*types.TypeName)
+		if !ok {
+			continue
+		}
+		st, ok := tn.Type().Underlying().(*types.Struct)
+		if !ok {
+			continue
+		}
+		byName[n] = st
+		for i := 0; i < st.NumFields(); i++ {
+			if typeStr(st.Field(i).Type()) == "map[int64]rules.Rule" {
+				found = append(found, [2]string{n, st.Field(i).Name()})
+			}
+		}
+	}
+	if len(found) == 1 {
+		owner, field = found[0][0], found[0][1]
+	}
+	if st := byName[owner]; st != nil {
+		mus = musOf(st)
+	}
+	if len(mus) == 0 {
+		if st := byName["RuleStorage"]; st != nil {
+			mus = musOf(st)
+		}
+	}
+	return owner, field, mus
+}
+
 func allowedMemo(p *Prog, w Write) (string, bool) {
+	cOwner, cField, _ := ruleCacheField(p)
 	switch {
-	case w.Kind == "mapupdate" && w.What == "filterlist.RuleStorage.cache" && inGroupOf(p, w.Fn, p.Method("filterlist", "RuleStorage", "RetrieveRule")):
+	case w.Kind == "mapupdate" && w.What == "filterlist."+cOwner+"."+cField && inGroupOf(p, w.Fn, p.Method("filterlist", "RuleStorage", "RetrieveRule")):
 		return "rule cache: value = the rule parsed from the list at that index, key = the index (C19.R4)", true
 	case w.Kind == "store" && (w.What == "rules.NetworkRule.regex" || w.What == "rules.NetworkRule.invalid") && inGroupOf(p, w.Fn, p.Method("rules", "NetworkRule", "preparePattern")):
 		return "lazily compiled pattern / invalid flag: a function of the immutable pattern and options (C03.R5/R6)", true
@@ -97,7 +153,8 @@ func runC13(c *Ctx) {
 		c.Fail("C13.R1", key, w.Instr.Pos(), w.Desc+": evaluating a query or a derived result changes state that later queries (or earlier results) observe")
 	}
 	c.Check(nAlias == 0, "C13.R3", "no aliasing append / in-place operation reachable from a query", token.NoPos, fmt.Sprintf("%d library functions reachable from %d entry points", n, len(roots)), "see the sites listed above")
-	for _, m := range []string{"filterlist.RuleStorage.cache", "rules.NetworkRule.regex"} {
+	cOwner, cField, _ := ruleCacheField(c.P)
+	for _, m := range []string{"filterlist." + cOwner + "." + cField, "rules.NetworkRule.regex"} {
 		if !memoSeen[m] {
 			c.Notes = append(c.Notes, "memo state "+m+" is no longer written from a query")
 		}
